@@ -101,6 +101,73 @@ def _install_fast_finder():
     sys.meta_path.insert(0, _FastFinder())
 
 
+_PREFIX = 'matched_markets.methodology.'
+
+
+def _purge_methodology(pkg):
+  """Detach the current module set; returns (sys.modules entries, attrs)."""
+  mods = {n: sys.modules[n] for n in list(sys.modules)
+          if n.startswith(_PREFIX)}
+  for n in mods:
+    del sys.modules[n]
+  attrs = {a: v for a, v in vars(pkg).items() if not a.startswith('__')}
+  for a in attrs:
+    delattr(pkg, a)
+  return mods, attrs
+
+
+def _attach_methodology(pkg, mods, attrs):
+  sys.modules.update(mods)
+  for a, v in attrs.items():
+    setattr(pkg, a, v)
+
+
+class ModuleSet(list):
+  """The requested modules of one set (a list), plus the whole set.
+
+  `active()` makes the set the one that by-name lookups see
+  (sys.modules['matched_markets.methodology.*'] and the package attributes)
+  for the duration of a block: code that resolves its own classes by name at
+  call time -- pickle of its own instances, function-level imports -- must
+  find the classes of the set it belongs to, not those of the other party.
+  """
+
+  def __init__(self, modules, pkg, installed):
+    super().__init__(modules)
+    self._pkg = pkg
+    self._installed = installed
+    self._mods = {}
+    self._attrs = {}
+
+  def active(self):
+    return _Active(self)
+
+
+class _Active:
+
+  def __init__(self, mset):
+    self.mset = mset
+    self.prev = None
+
+  def __enter__(self):
+    m = self.mset
+    if m._installed:          # pylint: disable=protected-access
+      return m
+    self.prev = _purge_methodology(m._pkg)   # pylint: disable=protected-access
+    _attach_methodology(m._pkg, m._mods, m._attrs)  # pylint: disable=protected-access
+    return m
+
+  def __exit__(self, *exc):
+    m = self.mset
+    if m._installed:          # pylint: disable=protected-access
+      return False
+    # whatever the block imported lazily stays with the set it belongs to
+    m._mods, m._attrs = _purge_methodology(m._pkg)  # pylint: disable=protected-access
+    _attach_methodology(m._pkg, *self.prev)  # pylint: disable=protected-access
+    self.prev = None
+    return False
+
+
 def load_module_set(names, install):
   """The named methodology modules, re-executed from source.
 
@@ -110,33 +177,25 @@ def load_module_set(names, install):
   the reference: one module set is one simulated process.  All
   matched_markets.methodology modules are dropped from sys.modules and the
   named ones imported afresh (which re-imports what they depend on).  With
-  install=False the previous sys.modules entries are put back afterwards, so
-  the new set lives on only through the returned module objects.
+  install=False the previous sys.modules entries are put back afterwards; the
+  new set lives on through the returned ModuleSet, whose `active()` swaps it
+  in for the duration of a reference evaluation.
   """
   install_repo_path()
   _install_fast_finder()
   import importlib  # pylint: disable=g-import-not-at-top
-  prefix = 'matched_markets.methodology.'
   pkg = importlib.import_module('matched_markets.methodology')
-
-  def purge():
-    mods = {n: m for n, m in sys.modules.items() if n.startswith(prefix)}
-    for n in mods:
-      del sys.modules[n]
-    attrs = {a: v for a, v in vars(pkg).items() if not a.startswith('__')}
-    for a in attrs:
-      delattr(pkg, a)
-    return mods, attrs
-
-  prev_mods, prev_attrs = purge()
+  prev = _purge_methodology(pkg)
+  out = None
   try:
-    out = [importlib.import_module(prefix + n) for n in names]
+    out = ModuleSet([importlib.import_module(_PREFIX + n) for n in names],
+                    pkg, install)
   finally:
     if not install:
-      purge()
-      sys.modules.update(prev_mods)
-      for a, v in prev_attrs.items():
-        setattr(pkg, a, v)
+      mine = _purge_methodology(pkg)
+      if out is not None:
+        out._mods, out._attrs = mine   # pylint: disable=protected-access
+      _attach_methodology(pkg, *prev)
   return out
 
 
@@ -327,7 +386,29 @@ def canon(x, _depth=0):
     # GeoAssignments defines its own __init__; read the annotated fields.
     names = [f.name for f in dataclasses.fields(x)]
     return ['dc', tname, [[n, canon(getattr(x, n, None), d)] for n in names]]
-  return ['obj', tname, repr(x)]
+  # Library objects under another class name (a subclass, a frozen record
+  # handed out instead of the live object) are recognised by what they offer.
+  if all(hasattr(type(x), q) or hasattr(x, q)
+         for q in ('treatment_geos', 'control_geos', 'score', 'diag')):
+    return ['design', {
+        'treatment': canon(set(x.treatment_geos), d),
+        'control': canon(set(x.control_geos), d),
+        'score': canon(x.score, d),
+        'diag': canon(x.diag, d)}]
+  if all(hasattr(type(x), q) for q in ('corr', 'required_impact', 'bbtest',
+                                       'aatest', 'dwtest', 'tests_ok')):
+    return ['diag', canon_diag(x, d)]
+  r = repr(x)
+  if ' at 0x' in r:
+    # the default repr embeds the address: never an answer.  Public state.
+    names = sorted(set(getattr(x, '__dict__', {})) |
+                   {n for c in type(x).__mro__
+                    for n in ((getattr(c, '__slots__', ()),) if isinstance(
+                        getattr(c, '__slots__', ()), str) else getattr(
+                            c, '__slots__', ()))})
+    return ['obj', tname, [[n, canon(getattr(x, n, None), d)]
+                           for n in names if not n.startswith('_')]]
+  return ['obj', tname, r]
 
 
 DIAG_QUANTITIES = ('x', 'y', 'corr', 'required_impact', 'pretestfit', 'bbtest',
